@@ -79,26 +79,30 @@ func propertyFailsL(prop, op, res, lean string) (why string) {
 			}
 		}
 	case "C02", "C16":
+		if prop == "C16" {
+			if w := unitOracle(base, kind, args, res); w != "" {
+				return w
+			}
+		}
+		if base == "relay" {
+			if hasPrefix(res, "mutated") {
+				return "marshalling a list altered it: " + res
+			}
+			if strings.HasSuffix(res, "concat-differs") {
+				return "Marshal(list) is not the concatenation of the members' encodings"
+			}
+		}
 		if base == "rt" {
 			return rtOracle(args, res, false)
 		}
 		if base == "rto" {
-			p := getBody(NewR(args), kind)
-			if !wfPacket(p) {
-				return ""
-			}
-			if !isOK {
-				return tagged("own decoder or Marshal rejects a well-formed value: "+clip(res, 40), p)
-			}
-			if want := canonTokens(p); want != kind+" "+res[3:] && want != res[3:] {
-				return tagged("own decoder returns a different value", p)
-			}
+			return rtoOracle(kind, args, res)
 		}
 	case "C03":
 		if base == "encspec" && hasPrefix(lean, "ok") && res != lean {
 			p := getBody(NewR(args), kind)
 			if wfPacket(p) {
-				return tagged("Marshal output differs from the RFC layout (Spec/Wire.lean rendering: "+clip(lean, 80)+")", p)
+				return tagged("Marshal output differs from the RFC layout (Spec/Wire.lean rendering: "+clip(lean, 80)+")", p, tagSLI)
 			}
 		}
 	case "C04":
@@ -143,7 +147,7 @@ func propertyFailsL(prop, op, res, lean string) (why string) {
 				return fmt.Sprintf("len %d != MarshalSize %d", l, sz)
 			}
 			if l%4 != 0 {
-				return tagged(fmt.Sprintf("len %d not a multiple of 4", l), p)
+				return tagged(fmt.Sprintf("len %d not a multiple of 4", l), p, tagXR)
 			}
 			if r.S() == "err" {
 				return "emitted header does not parse"
@@ -152,6 +156,9 @@ func propertyFailsL(prop, op, res, lean string) (why string) {
 			h := getHeader(r)
 			if int(h.Length) != l/4-1 {
 				return fmt.Sprintf("length field %d != %d", h.Length, l/4-1)
+			}
+			if pt, cnt, ok := specTypeCount(p); ok && (int(h.Type) != pt || int(h.Count) != cnt) {
+				return tagged(fmt.Sprintf("header carries packet type %d and count/FMT %d, the value calls for %d and %d", h.Type, h.Count, pt, cnt), p, tagSLI)
 			}
 			if hh, ok := p.(interface{ Header() rtcp.Header }); ok && kind != "RAW" {
 				if hh.Header() != h {
@@ -255,6 +262,14 @@ func propertyFailsL(prop, op, res, lean string) (why string) {
 			}
 		}
 	case "C09":
+		if base == "relay" {
+			if hasPrefix(res, "mutated") {
+				return "re-serialising altered the received data: " + res
+			}
+			if strings.HasSuffix(res, "concat-differs") {
+				return "Marshal(list) is not the concatenation of the members' encodings"
+			}
+		}
 		if base == "reenc" && hasPrefix(res, "ok ") {
 			parts := splitSemi(res[3:])
 			if len(parts) >= 2 && parts[1] == "panic" {
@@ -287,7 +302,7 @@ func propertyFailsL(prop, op, res, lean string) (why string) {
 			ps := getPackets(NewR(args))
 			if len(ps) == 1 && wfPacket(ps[0]) && kindName(ps[0]) != "SLI" {
 				if len(parts) != 2 || parts[0] != parts[1] {
-					return tagged("DestinationSSRC changes over an encode/decode round trip", ps[0])
+					return tagged("DestinationSSRC changes over an encode/decode round trip", ps[0], tagCCFB)
 				}
 			}
 		}
@@ -342,6 +357,15 @@ func propertyFailsL(prop, op, res, lean string) (why string) {
 		if base == "enc" && kind == "XR" && isOK {
 			return xrOracle(args, res)
 		}
+		if base == "dec" && kind == "XR" && hasPrefix(res, "ok ") {
+			return xrDecOracle(NewR(args).H(), res[3:])
+		}
+		if base == "rto" && kind == "XR" {
+			return rtoOracle(kind, args, res)
+		}
+		if base == "rt" {
+			return rtOracle(args, res, false)
+		}
 	case "C17":
 		if hasPrefix(res, "panic") {
 			return "String()/formatting panicked"
@@ -349,6 +373,9 @@ func propertyFailsL(prop, op, res, lean string) (why string) {
 	case "C18":
 		if hasPrefix(res, "mutated") {
 			return res
+		}
+		if base == "relay" && strings.HasSuffix(res, "concat-differs") {
+			return "Marshal(list) is not the concatenation of the members' encodings"
 		}
 		if hasPrefix(res, "panic") {
 			return "panic during history"
@@ -398,4 +425,23 @@ func fieldsOf(s string) []string {
 		}
 	}
 	return out
+}
+
+// rtoOracle: Marshal, then the type's own decoder, on a well-formed value
+func rtoOracle(kind, args, res string) string {
+	p := getBody(NewR(args), kind)
+	if !wfPacket(p) {
+		return ""
+	}
+	if !hasPrefix(res, "ok") {
+		return tagged("own decoder or Marshal rejects a well-formed value: "+clip(res, 40), p, tagCCFB)
+	}
+	got := ""
+	if len(res) > 3 {
+		got = res[3:]
+	}
+	if want := canonTokens(p); want != kind+" "+got && want != got && want != kind {
+		return tagged("own decoder returns a different value", p, tagCCFB, tagREMB)
+	}
+	return ""
 }
